@@ -105,7 +105,7 @@ def main(tier, seed, replay=None):
                 'compared with the model; server liveness and process leftovers are checked after every history. Non-trivial = history with a duplicate, a delete or an unknown id.')
     res.assumptions = ['"deleting a context ends its workers" relies on the helper process terminating its children (checked on the process tree, see also C12)']
     res.trusted.append('hand-written model Server/Model.v (pinned to RemoteServer.run); harness/props/c18.py')
-    core.prove(res, PROP, [], PROOFS, run_files=['theories/Server/Run.v'])
+    core.prove(res, PROP, ['ServerLoop'], PROOFS, run_files=['theories/Server/Run.v'])
     sys.path.insert(0, core.REPO)
     rnd = random.Random(seed)
     hists = [[('create', 1, 3), ('create', 1, 2), ('worker', 1), ('delete', 1), ('worker', 1), ('create', 1, 2), ('worker', 1)],
